@@ -580,7 +580,7 @@ def _cli_subprocess(argv):
     env = dict(os.environ)
     env["PYTHONPATH"] = corpus.REPO + os.pathsep + env.get("PYTHONPATH", "")
     try:
-        p = subprocess.run([sys.executable, "-m", "sharepoint2text.cli", *argv], capture_output=True, text=True, timeout=120, env=env, cwd=corpus.REPO)
+        p = subprocess.run([sys.executable, "-m", "sharepoint2text.cli", *argv], capture_output=True, text=True, timeout=60, env=env, cwd=corpus.REPO)
     except subprocess.TimeoutExpired:
         return "TIMEOUT", "", ""
     return p.returncode, p.stdout, p.stderr
@@ -611,12 +611,19 @@ def _cli_late_failures(ctx):
     broken = []
     inputs = CC.late_failure_inputs(ctx.rng)
     late = 0
+    hung = 0
     with tempfile.TemporaryDirectory(prefix="s2t_c01late_") as td:
         for i, (name, data, what) in enumerate(inputs):
             p = os.path.join(td, name)
             with open(p, "wb") as fh:
                 fh.write(data)
+            if hung >= 2:
+                break
             kind, n = _yields_before_failure(p)
+            if kind == "hang":
+                hung += 1
+                broken.append(Broken("correspondence", "c01.read_file", f"{name} ({what}): read_file did not end within {_CLI_LIMIT_S} s after {n} result(s)",
+                                     case={"kind": "cli", "name": name, "flags": [], "data_b64": base64.b64encode(data).decode()}))
             is_late = kind != "ok" and n >= 1
             late += is_late
             ctx.count(f"cli/late-input/{kind}-after-{min(n, 3)}")
@@ -624,7 +631,11 @@ def _cli_late_failures(ctx):
             if is_late and (ctx.thorough or late <= 2):
                 runs += [([], True), (["--json"], True)]
             for flags, sub in runs:
+                if hung >= 2:       # non-termination is established: do not sit through one time limit per further run
+                    break
                 rc, out, err = _cli_subprocess([p, *flags]) if sub else _cli_once([p, *flags])
+                if isinstance(rc, str) and (rc.startswith("HANG") or rc == "TIMEOUT"):
+                    hung += 1
                 ok, why = _cli_ok(rc, out, err)
                 ctx.case(("cli-late", name, tuple(flags), sub, len(data)), nontrivial=is_late)
                 ctx.count(f"cli/{'late' if is_late else 'multi'}{'-subprocess' if sub else ''}/rc={rc}")
